@@ -30,7 +30,7 @@ def amounts(rng, n):
 
 def strings(rng, n):
     out = ["", ".", "0", "0.", ".0", "0.0", "1", "1.", "1.0", "0x10", "0b1", "0o7", "1_0", "_", "+1", "-1", " 1",
-           "1 ", "1.0x1", "1.1_1", "1..1", "1.1.1", "0.000000000000000001", "0.0000000000000000001",
+           "1 ", "1\n", "1.5\n", "1.0x1", "1.1_1", "1..1", "1.1.1", "0.000000000000000001", "0.0000000000000000001",
            "0.0000000000000000010", "1e3", "١", "1.١", "00", "007.5", "0.5000000000000000000000000",
            "115792089237316195423570985008687907853269984665640564039457.584007913129639935",
            "115792089237316195423570985008687907853269984665640564039457.584007913129639936",
@@ -84,7 +84,7 @@ def gen(ctx):
     return cases
 
 
-GRAMMAR = re.compile(r"^([0-9]+)(?:\.([0-9]*))?$", re.A)
+GRAMMAR = re.compile(r"([0-9]+)(?:\.([0-9]*))?\Z", re.A)
 
 
 def oracle(c, o):
@@ -94,7 +94,7 @@ def oracle(c, o):
         return [("panic", "%s panicked: %s" % (c["op"], o["panic"]))]
     if c["op"] == "roundtrip":
         a = int(c["a"])
-        m = re.match(r"^([0-9]+)\.([0-9]+)$", o["s"], re.A)
+        m = re.fullmatch(r"([0-9]+)\.([0-9]+)", o["s"], re.A)
         if not m or len(m.group(2)) != 18 or int(m.group(1)) * RAW + int(m.group(2)) != a:
             v.append(("display-value", "display(%d) = %r is not the amount's value in whole tokens with 18 fractional digits" % (a, o["s"])))
         if o["code"] != 0 or int(o["v"]) != a:
